@@ -291,6 +291,23 @@ func generate(do func(string), r *Rand, tier string) {
 		do(fmt.Sprintf("decode 0 0 %s %s %s", Ints(genChunks14(r)), opsN(false, k+1), S))
 		do(fmt.Sprintf("decode 0 0 %s %s %s", Ints(genChunks14(r)), opsN(true, k+2), S))
 		do(fmt.Sprintf("decode 0 0 %s d,r,%s %s", Ints(genChunks14(r)), opsN(false, k+1), S))
+		// the same stream through readers that use the freedom of the io.Reader contract: the final
+		// error together with the last bytes, (0, nil) reads, a final error that is not io.EOF
+		for _, beh := range []string{"t", "t", "n", "e", "te"} {
+			ch := genChunks14(r)
+			if r.Bool() {
+				ch = append(ch, 0)
+			}
+			if r.Intn(4) == 0 {
+				ch = []int{4096} // everything, and the error, in one Read
+			}
+			do(fmt.Sprintf("decodex %s 0 %s %s %s", beh, Ints(ch), opsN(r.Bool(), k+2), S))
+		}
+		if len(stream) > 9 {
+			cut := 1 + r.Intn(len(stream)-1)
+			do(fmt.Sprintf("decodex t 0 %s %s %s", Ints(genChunks14(r)), opsN(r.Bool(), k+1), fmtBytes(stream[:cut])))
+			do(fmt.Sprintf("decodex te 0 %s %s %s", Ints(genChunks14(r)), opsN(r.Bool(), k+1), fmtBytes(stream[:cut])))
+		}
 		if len(pstream) <= 3000 {
 			P := fmtBytes(pstream)
 			do(fmt.Sprintf("decode 1 0 %s %s %s", Ints(genChunks14(r)), opsN(false, k+1), P))
